@@ -1200,6 +1200,14 @@ def discharge(ob, timeout_ms=10000):
     s = z3.Solver(); s.set('timeout', timeout_ms)
     s.add(*ob.hyps); s.add(z3.Not(ob.goal))
     r = s.check()
+    if r == z3.unknown and timeout_ms >= 2000:
+        # quantifier instantiation is sensitive to the search order: two more attempts with other seeds before giving up
+        for seed in (7, 23):
+            s2 = z3.Solver(); s2.set('timeout', timeout_ms); s2.set('random_seed', seed); s2.set('smt.random_seed', seed)
+            s2.add(*ob.hyps); s2.add(z3.Not(ob.goal))
+            r2 = s2.check()
+            if r2 != z3.unknown:
+                r, s = r2, s2; break
     dt = time.time() - t
     if r == z3.unsat: return 'ok', 'z3', dt, ''
     if r == z3.sat:
